@@ -1190,7 +1190,13 @@ class Fn:
             c = t['callee']
             path = c.get('rpath') or c['path']
             gen = c['path']
-            return ('call', path, args, gen, c.get('full', ''))
+            out = ('call', path, args, gen, c.get('full', ''))
+            if path in _uncalled(self.prog) and depth < 200:
+                # a constructor / builder the pinned code never calls: the value it constructs (see ctor_value)
+                v = ctor_value(self.prog, out)
+                if v is not None:
+                    return v
+            return out
         return ('callptr', self.expr_of_operand(t['fnptr'], depth + 1, seen), args)
 
     def expr_of_rvalue(self, rv, depth=0, seen=None):
@@ -1604,7 +1610,134 @@ def expand(fn, e, depth=0, keep=None):
                         else (expand(fn, y, depth + 1, keep) if isinstance(y, tuple) else y) for y in x])
         else:
             out.append(x)
-    return tuple(out)
+    out = tuple(out)
+    if out and out[0] == 'call' and out[1] in _uncalled(fn.prog):
+        v = ctor_value(fn.prog, out)
+        if v is not None:
+            return v
+    return out
+
+
+def _uncalled(P):
+    if not hasattr(P, '_unc'):
+        try:
+            with open(os.path.join(os.path.dirname(os.path.abspath(__file__)), '..', 'spec', 'known_fns.json')) as fh:
+                P._unc = set(json.load(fh).get('uncalled', []))
+        except Exception:
+            P._unc = set()
+    return P._unc
+
+
+def ctor_value(P, e, depth=0):
+    """a call of a constructor / builder method of the crate that the pinned code never calls (`Function::new(..)
+    .with_arguments(..)`, `Region::field(..)`, `ItemStateResolved::new(..)`) is a new spelling of a struct literal: the value it
+    constructs, in the caller's terms — an aggregate, or the receiver with some fields replaced.  None when the callee is not a
+    plain constructor (a loop, a branch, a fallible step)."""
+    if depth > 6 or e[0] != 'call':
+        return None
+    if e[3].endswith('default::Default::default') and not e[2] and len(e) > 4:
+        m = re.match(r'^<(.*) as std::default::Default>::default$', e[4] or '')
+        return default_value(P, m.group(1)) if m else None
+    if e[1] not in P.fns or e[1] not in _uncalled(P):
+        return None
+    H = P.fns[e[1]]
+    if H.loops() or H.switches() or len(H.exits()) != 1 or len(e[2]) != H.nargs:
+        return None
+    args = [_ctor_norm(P, a, depth + 1) for a in e[2]]
+    x = H.exits()[0]
+    v = strip(expand(H, x['expr']))
+    # fields of parameters overwritten on the way (`mut self` builders)
+    upd = {}
+    for l, sts in H.stores().items():
+        if not (1 <= l <= H.nargs):
+            return None
+        for (bi, si, kind, payload, span) in sts:
+            if kind != 'rv':
+                return None
+            pr = payload['place']['proj']
+            if len(pr) != 1 or pr[0].get('k') != 'Field':
+                return None
+            upd.setdefault(l, {})[pr[0]['name']] = subst_args(expand(H, H.expr_of_rvalue(payload['rv'])), args)
+    if v[0] == 'arg' and v[1] in upd:
+        base = strip(args[v[1] - 1])
+        if base[0] == 'agg':
+            flds = [(k, _std_conv_free(upd[v[1]][k]) if k in upd[v[1]] else val) for k, val in base[2]]
+            return _ctor_norm(P, ('agg', base[1], flds), depth + 1)
+        return ('update', base, sorted(upd[v[1]].items()))
+    if upd:
+        return None
+    res = _std_conv_free(simplify(subst_args(v, args)))
+    # nested constructor calls (Self::default(), other builders) inside the constructed value
+    def inner(x):
+        if x and x[0] == 'call' and depth < 6:
+            r_ = ctor_value(P, x, depth + 1)
+            if r_ is not None:
+                return r_
+        return x
+    return simplify(map_tree(res, inner))
+
+
+def ctor_norm(P, e):
+    """every constructor / builder call in `e` (of functions the pinned code never calls) replaced by the value it constructs;
+    locals are left alone"""
+    def one(x):
+        if x and x[0] == 'call' and x[1] in _uncalled(P):
+            v = ctor_value(P, x)
+            if v is not None:
+                return v
+        return x
+    return simplify(map_tree(e, one))
+
+
+def _std_conv_free(e):
+    """value-preserving std conversions written in a generic constructor (`name: impl Into<String>` -> `name.into()`) dropped"""
+    def one(x):
+        # (a conversion that runs one of the crate's own From impls has been resolved to that impl and is kept)
+        if x and x[0] == 'call' and x[3].endswith('convert::Into::into') and x[2] and (x[1].endswith('convert::Into<U>>::into') or x[1].endswith('convert::Into::into')):
+            return x[2][0]
+        return x
+    return map_tree(e, one)
+
+
+def default_value(P, ty, depth=0):
+    """the value `Default::default()` has for type `ty` when every impl involved is derived (or std's): an aggregate of defaults"""
+    if depth > 4:
+        return None
+    if ty == 'bool':
+        return ('int', 0, 'bool')
+    if ty in ('usize', 'isize', 'u8', 'u16', 'u32', 'u64', 'i8', 'i16', 'i32', 'i64'):
+        return ('int', 0, ty)
+    if ty.startswith('std::option::Option<'):
+        return ('agg', 'std::option::Option::None', [])
+    if ty.startswith('std::vec::Vec<'):
+        return ('call', 'std::vec::Vec::<T>::new', [], 'std::vec::Vec::<T>::new', 'std::vec::Vec::<T>::new')
+    if ty == 'std::string::String':
+        return ('call', 'std::string::String::new', [], 'std::string::String::new', 'std::string::String::new')
+    adt = P.adts.get(ty)
+    if adt and adt.get('kind') == 'Struct' and any(i.get('self_ty') == ty and (i.get('trait') or '').endswith('default::Default') and i.get('derived') for i in P.impls):
+        flds = []
+        for fd in adt['variants'][0]['fields']:
+            v = default_value(P, fd['ty'], depth + 1)
+            if v is None:
+                return None
+            flds.append((fd['name'], v))
+        return ('agg', ty, flds)
+    return None
+
+
+def _ctor_norm(P, e, depth=0):
+    if not isinstance(e, tuple) or depth > 8:
+        return e
+    if e and e[0] == 'call':
+        # conversions into the very same type are the identity
+        if e[3].endswith('convert::Into::into') and len(e) > 4 and e[2]:
+            m = re.match(r'^<(.*) as std::convert::Into<(.*)>>::into$', e[4] or '')
+            if m and m.group(1) == m.group(2):
+                return _ctor_norm(P, e[2][0], depth + 1)
+        v = ctor_value(P, e, depth)
+        if v is not None:
+            return v
+    return e
 
 
 ITER_FN = 'std::iter::Iterator::'
